@@ -51,6 +51,7 @@ Comparable(b) == /\ NewRecs(b) >= 0 /\ NewSegs(b) >= 0 /\ b.segs # <<>>
 PropOther(e) ==
   CASE e.a = "Append" -> P_Append(e.args.recs)
     [] e.a = "SetHW" -> P_SetHW(e.args.h)
+    [] e.a = "Drain" -> P_Drain(e.args.r)
     [] OTHER -> P_Same
 
 ImplOf(e) ==
@@ -62,6 +63,8 @@ ImplOf(e) ==
     [] e.a = "CleanBegin" -> DoCleanBegin
     [] e.a = "CleanEnd" -> DoCleanEnd
     [] e.a = "Reopen" -> CReopen
+    [] e.a = "NewReader" -> CNewReader(e.args.r, e.args.s, e.args.c)
+    [] e.a = "Drain" -> CDrain(e.args.r)
     [] OTHER -> UNCHANGED <<cfg, log, segs, hw, epochs, ro, rd, cc, now, pend>>
 
 \* ---- read-back (evaluated on the state of a line outside a pending clean)
